@@ -438,6 +438,55 @@ pub fn check(env: &Env, c: &Case) -> Outcome {
     }
 }
 
+/// The oracle on raw file text (libFuzzer target, and replays of fuzzer artifacts). Every text is
+/// treated as an *edited* file: a parser stricter than the loader is never an alarm.
+pub fn check_text(text: &str) -> Outcome {
+    let f = fp(&text);
+    let class = "text".to_string();
+    match (stone::load_str(text, false), run_parser(text)) {
+        (_, ParserOut::Panic(p)) => Outcome::failed(class, f, format!("{}:parse", p.signature()), format!("parser/conversion panics: {}", p.describe())),
+        (Err(LoadError::CrossCheck(_)), _) | (Err(LoadError::Unspecified(_)), _) => Outcome::trivial("text|unspecified"),
+        (Ok(l), ParserOut::Ok(p)) => {
+            if *p == l.proof {
+                Outcome::pass("text|equal", true, f)
+            } else {
+                let d = first_difference(&p, &l.proof);
+                Outcome::failed(class, f, format!("c19:content_differs:{}", group_path(&d)), format!("converted proof differs from the file at {}", d))
+            }
+        }
+        (Ok(_), ParserOut::Err(_)) => Outcome::pass("text|parser_stricter", true, f),
+        (Err(LoadError::Malformed(m)), ParserOut::Ok(_)) => {
+            let reason: String = normalise_msg(m.split(':').next().unwrap_or(&m)).chars().take(48).collect();
+            Outcome::failed(class, f, format!("c19:malformed_accepted:{}", reason), format!("file that is malformed / not representable ({}) was converted without error", m))
+        }
+        (Err(LoadError::Malformed(_)), ParserOut::Err(_)) => Outcome::pass("text|both_reject", false, f),
+    }
+}
+
+/// Write a seed corpus of rendered files (and a few trimmed shipped ones) for the libFuzzer target.
+pub fn write_corpus(ctx: &Ctx, dir: &str, n: u64) -> std::io::Result<()> {
+    let mut rep = Report::new();
+    let e = env(ctx, &mut rep);
+    std::fs::create_dir_all(dir)?;
+    for i in 0..n {
+        let g = Gen {
+            layout: (i % 7) as u8,
+            seed: mix(ctx.seed, i),
+            steps: vec![(i % 4) as u8, (i / 4 % 4) as u8],
+            log_last: (i % 3) as u8,
+            n_steps_log: (i % 5) as u8,
+            cosets: (i % 16) as u8,
+            queries: (i % 4) as u8,
+            oods: (i % 5) as u8,
+            mem: (i % 7) as u8,
+            auth: (i % 5) as u8,
+            leaves: (i % 3) as u8,
+        };
+        std::fs::write(format!("{}/gen-{:03}.json", dir, i), render(&g, &e.dyn_keys).to_string())?;
+    }
+    Ok(())
+}
+
 pub fn strategy() -> impl Strategy<Value = Case> {
     let gen = (
         (0u8..7, any::<u64>(), proptest::collection::vec(any::<u8>(), 1..5), any::<u8>(), any::<u8>()),
